@@ -299,6 +299,20 @@ func runFaults(env *Env) error {
 			judge(id, fmt.Sprintf("every read returning at most %d bytes", mr), res, true)
 			env.Case(id, "NOMODEL", []string{sc.name, fmt.Sprint(mr)}, fmt.Sprintf("leak=%d", res.leak), true)
 		}
+		// (2b) positional reads of the encrypted image coming back short without an error
+		if sc.name == "redump" {
+			for _, sa := range []int{1, 1000, 2047, 3000} {
+				id := fmt.Sprintf("faults-%s-shortat%d", sc.name, sa)
+				abs := filepath.Join(top, "R", "PS3ISO/g.iso")
+				sessPrep = func(ls *LibServer) { ls.Dfs.ShortAt[abs] = sa }
+				res, err := runSession(top, sc.allow, chunks, ops, 65536, nil)
+				if err != nil {
+					return err
+				}
+				judge(id, fmt.Sprintf("every positional read of PS3ISO/g.iso returning at most %d bytes without an error", sa), res, true)
+				env.Case(id, "NOMODEL", []string{sc.name, fmt.Sprint(sa)}, fmt.Sprintf("leak=%d", res.leak), true)
+			}
+		}
 		// (3) an unreadable tail of the main file
 		if sc.name == "plain" || sc.name == "redump" {
 			file := map[string]string{"plain": "f.bin", "redump": "PS3ISO/g.iso"}[sc.name]
